@@ -191,6 +191,27 @@ func Templates() []Tpl {
 		{"gas-transfer", func(w *World) ([]*transaction.Transaction, error) {
 			return one(w.N.CallTx(s(1), gasH, "transfer", Acc(1).ScriptHash(), Acc(2).ScriptHash(), int64(3*gas), nil))
 		}},
+		{"ledger-reads", func(w *World) ([]*transaction.Transaction, error) { // what contracts can read about earlier transactions
+			var script []byte
+			cnt := 0
+			for h := w.N.Height(); h > 0 && h+3 > w.N.Height() && cnt < 3; h-- {
+				b, err := w.N.BC.GetBlock(w.N.BC.GetHeaderHash(h))
+				if err != nil {
+					return nil, err
+				}
+				for _, tx := range b.Transactions {
+					if cnt == 3 {
+						break
+					}
+					cnt++
+					for _, m := range []string{"getTransactionVMState", "getTransactionHeight", "getTransactionSigners"} {
+						script = append(script, CallScript(nativehashes.LedgerContract, m, tx.Hash())...)
+					}
+				}
+			}
+			script = append(script, CallScript(nativehashes.LedgerContract, "currentIndex")...)
+			return one(w.N.MakeTx(script, s(2)))
+		}},
 		{"neo-transfer", func(w *World) ([]*transaction.Transaction, error) {
 			return one(w.N.CallTx(s(1), neo, "transfer", Acc(1).ScriptHash(), Acc(3).ScriptHash(), int64(7), nil))
 		}},
